@@ -14,12 +14,21 @@ Three independent pieces per case (DESIGN.md §7 C20):
     calls: every option is the argument of the call it names (effective arguments, library defaults filled in),
     --replicate before the minimum-image step, replications and pair parameters before the search.  It asks no more
     than that: e.g. a harmless re-ordering of the overrides is left to the tie (→ no-failing-input-found).
+(a') EXECUTION TIE (Model/CliRun.lean): the Lean interpreter of the plan (`runPlan`) and the API pipeline written in Lean
+    (`apiPipeline`; proved equal) are run on the environment observed on the real run (content of every loaded file, the
+    matches the search returned, the sampled positions, charge / dump numbers) and compared with the structure the real
+    run held when it saved, and with the matches it reported.
+(a") ARGUMENT-VECTOR TIE (Model/CliArgs.lean): the very command line of every case, another spelling of it, and a stream of
+    generated command lines (short / long names, attached values, `=`, repeated options, `--`, one defect each: unknown
+    option, missing value(s), value for the flag, non-number, missing / surplus path, `--help`) go through click
+    (`mofun_cli.make_context`, nothing is run) and through the model's `parseArgs`: same record or same error class.
 (c) END-TO-END ORACLE: the file the CLI wrote is compared (as a parsed structure, 1e-6) with the file written by
     the equivalent API pipeline run under the same `random`/`numpy.random` seed; find-only: the printed matches equal
     the API's matches as a set of sorted tuples.
 """
 import ast
 import builtins
+import json
 import contextlib
 import inspect
 import math
@@ -41,7 +50,8 @@ RULE = ("worlds: generated periodic structures (orthorhombic; a separate triclin
         "-p{default,0,0.5,1} x hints{none,(0,1,2),(2,0,1),(0,-,-)} x replicate{none,2 1 1,1 2 2} x mic{none,1x1x1,2x..} x "
         "chargefile{no,yes} x pp{off,on} x mode{none,find,find+replace,replace-without-find} x input format x pattern "
         "format x output format; plus streams: docs examples (uio66), ASE in/out + dump file, no-cell rejections, "
-        "--framework-element (known finding). Non-trivial = distinct input in which at least one option beyond "
+        "--framework-element (known finding); every case also feeds the execution tie and the argument-vector tie, plus 200 "
+        "(quick) / 3000 (thorough) generated command lines, half of them with one defect. Non-trivial = distinct input in which at least one option beyond "
         "input/output reaches a library call.")
 
 NATIVE_IN = (".lmpdat", ".cml", ".cif")
@@ -412,6 +422,7 @@ class Recorder:
 
     def __init__(self):
         self.events = []
+        self.inner = {}                  # matches of the search inside a replacement, sampled positions
         self.depth = 0
         self.active = False
         self._tok = {}
@@ -481,6 +492,11 @@ class Recorder:
                         track(r)
                         ev["ret"] = rec.tok(r)
                         ev["ret_obj"] = r
+                    if name == "find":
+                        try:
+                            ev["result"] = [[int(i) for i in t] for t in r]
+                        except Exception as e:
+                            ev["result_error"] = repr(e)
                     if after is not None:
                         try:
                             after(ev, a, k)
@@ -504,9 +520,27 @@ class Recorder:
             ev["dims"] = [int(v) for v in dims]
             ev["cell"] = cell_of(a[0])
 
+        def snap(x):
+            try:
+                return core.canon_atoms(x)
+            except Exception as e:  # not canonicalisable: the execution tie is skipped for this case
+                return {"unsnappable": repr(e)}
+
         def d_save(ev, a, k):
             ev["on"] = rec.tok(a[0])
             ev["path"] = str(a[1])
+            ev["final"] = snap(a[0])
+
+        def d_to_ase(ev, a, k):
+            ev["on"] = rec.tok(a[0])
+            ev["final"] = snap(a[0])
+
+        def a_snap(ev, a, k):
+            if ev.get("ret_obj") is not None:
+                ev["snapshot"] = snap(ev["ret_obj"])
+
+        def a_find(ev, a, k):
+            pass
 
         def d_on(ev, a, k):
             ev["on"] = rec.tok(a[0])
@@ -551,6 +585,29 @@ class Recorder:
             ev["on"] = rec.tok(a[0])
             ev["path"] = str(a[1])
 
+        import mofun.mofun as mm
+        saved_inner_find = mm.find_pattern_in_structure
+        saved_sample = random.sample
+
+        def inner_find(*a, **k):
+            out = saved_inner_find(*a, **k)
+            if rec.active and k.get("return_positions_and_quats"):
+                try:
+                    import numpy as np
+                    rec.inner["found"] = [{"idx": [int(i) for i in t],
+                                           "pos": [[core.q(x) for x in pp] for pp in np.array(out[1][n], dtype=float).tolist()],
+                                           "quat": [core.q(float(x)) for x in out[2][n].as_quat()]}
+                                          for n, t in enumerate(out[0])]
+                except Exception as e:
+                    rec.inner["found_error"] = repr(e)
+            return out
+
+        def sample_wrap(pop, k):
+            out = saved_sample(pop, k)
+            if rec.active:
+                rec.inner["sample"] = [int(i) for i in out]
+            return out
+
         def rec_print(*a, **k):
             if rec.active and rec.depth == 0:
                 rec.events.append({"k": "print", "text": " ".join(str(x) for x in a)})
@@ -564,15 +621,17 @@ class Recorder:
             return r
 
         try:
-            A.load = classmethod(wrap("load", saved_cls["load"].__func__, d_load))
-            A.from_ase_atoms = classmethod(wrap("from_ase", saved_cls["from_ase_atoms"].__func__, d_from_ase))
+            A.load = classmethod(wrap("load", saved_cls["load"].__func__, d_load, a_snap))
+            A.from_ase_atoms = classmethod(wrap("from_ase", saved_cls["from_ase_atoms"].__func__, d_from_ase, a_snap))
             A.replicate = wrap("replicate", saved_cls["replicate"], d_repl)
             A.save = wrap("save", saved_cls["save"], d_save)
-            A.to_ase = wrap("to_ase", saved_cls["to_ase"], d_on)
+            A.to_ase = wrap("to_ase", saved_cls["to_ase"], d_to_ase)
             M.find_pattern_in_structure = wrap("find", find0, d_find)
             M.replace_pattern_in_structure = wrap("replace", repl0, d_replace)
             M.assign_pair_params_to_structure = wrap("assign_pair", saved_mod["assign_pair_params_to_structure"], d_pair, a_pair)
             M.print = rec_print
+            mm.find_pattern_in_structure = inner_find
+            random.sample = sample_wrap
             ase.io.read = w_read
             ase.Atoms.write = wrap("ase_write", saved_write, d_write)
             self.active = True
@@ -589,6 +648,8 @@ class Recorder:
                 del M.print
             ase.io.read = saved_read
             ase.Atoms.write = saved_write
+            mm.find_pattern_in_structure = saved_inner_find
+            random.sample = saved_sample
             # objects switched to the recording subclass go back to plain Atoms
             for obj in self._keep:
                 if isinstance(obj, A) and type(obj) is not A:
@@ -613,7 +674,7 @@ def run_cli(o, T, seed):
         except TypeError:
             runner = CliRunner()
         res = runner.invoke(M.mofun_cli, args)
-    return res, rec.events
+    return res, rec.events, rec.inner
 
 
 # ====================================================================== trace normalisation (canonical call list)
@@ -998,6 +1059,292 @@ def err_kind(exc):
     return "error:" + type(exc).__name__
 
 
+# ====================================================================== execution tie (Model/CliRun.lean)
+
+EXEC_MAX_ATOMS = 700
+
+
+def pair_text_table(elements):
+    """the text of one pair-coefficient line per UFF key, from the table (not through mofun)"""
+    out = {}
+    for el in elements:
+        w = uff_expect(el)
+        if w is not None:
+            out[w[0]] = '%10.6f %10.6f # %s' % (w[1], w[2], w[0])
+    return out
+
+
+def exec_op(o, T, events, inner, chargevals):
+    """the op for the Lean interpreter `runPlan` / `apiPipeline`: options + environment (what every file holds, what the
+    search returned, which matches were sampled), all of it observed on the real run.  Returns (op, expected) or
+    (None, reason)."""
+    files, ase_files, dump, charges = {}, {}, {}, {}
+    elements = set()
+    pending_read = None
+    for e in events:
+        if e["k"] == "load" and "snapshot" in e:
+            if "unsnappable" in e["snapshot"]:
+                return None, "input not canonicalisable"
+            files[unsub(e["path"], T)] = e["snapshot"]
+            elements.update(e["snapshot"]["types"]["elem"])
+        elif e["k"] == "ase_read":
+            pending_read = e
+            if e.get("format") == "lammps-dump-text" and e.get("ret_positions") is not None:
+                dump[unsub(e["path"], T)] = [[core.q(float(v)) for v in r] for r in e["ret_positions"]]
+        elif e["k"] == "from_ase" and "snapshot" in e and pending_read is not None:
+            ase_files[unsub(pending_read["path"], T)] = e["snapshot"]
+            elements.update(e["snapshot"]["types"]["elem"])
+    if o["chargefile"] and chargevals is not None:
+        charges[o["chargefile"]] = [core.q(v) for v in chargevals]
+    search = []
+    fe = [e for e in events if e["k"] == "find" and "result" in e]
+    if fe:
+        search = [{"idx": t, "pos": [], "quat": ["0", "0", "0", "1"]} for t in fe[0]["result"]]
+    elif "found" in inner:
+        search = inner["found"]
+    op = {"op": "cli_run", "opts": model_opts(o), "files": files, "ase": ase_files, "dump": dump, "charges": charges,
+          "search": search, "sample": inner.get("sample"), "pair_text": pair_text_table(sorted(elements))}
+    # what the real run produced
+    fin = [e for e in events if e["k"] in ("save", "to_ase") and "final" in e]
+    expected = None
+    if fin:
+        e = fin[-1]
+        if "unsnappable" in e["final"]:
+            return None, "result not canonicalisable"
+        if len(e["final"]["atoms"]) > EXEC_MAX_ATOMS:
+            return None, "large"
+        rep = fe[0]["result"] if fe else None
+        if e["k"] == "save":
+            expected = {"ok": {"written": {"kind": "native", "path": unsub(e["path"], T), "fmt": suffix(e["path"])[1:],
+                                           "atoms": e["final"]}, "reported": rep}}
+        else:
+            a = e["final"]
+            wpath = [x for x in events if x["k"] == "ase_write"]
+            expected = {"ok": {"written": {"kind": "ase", "path": unsub(wpath[-1]["path"], T) if wpath else o["output"],
+                                           "elems": [a["types"]["elem"][r["ty"]] for r in a["atoms"]],
+                                           "pos": [r["pos"] for r in a["atoms"]], "cell": a["cell"]}, "reported": rep}}
+    return op, expected
+
+
+def exec_err_kind(exc):
+    if isinstance(exc, AttributeError) and "atom_groups" in str(exc):
+        return "reject:atom_groups"
+    if isinstance(exc, AssertionError):
+        return "reject:assert"
+    return err_kind(exc)
+
+
+def compare_exec(impl, model):
+    """None when equal; "ambiguous" when the only difference is a coordinate on a cell face wrapped the other way;
+    otherwise a description of the first difference"""
+    import numpy as np
+    if "ok" not in impl or "ok" not in model:
+        return core.same(impl, model)
+    wi, wm = impl["ok"]["written"], model["ok"]["written"]
+    if impl["ok"]["reported"] != model["ok"]["reported"]:
+        return "reported matches: %s vs %s" % (impl["ok"]["reported"], model["ok"]["reported"])
+    if wi["kind"] != wm["kind"] or wi["path"] != wm["path"]:
+        return "written: %s %s vs %s %s" % (wi["kind"], wi["path"], wm["kind"], wm["path"])
+    if wi["kind"] == "ase":
+        ai = {"elems": wi["elems"], "cell": wi["cell"]}
+        am = {"elems": wm["elems"], "cell": wm["cell"]}
+        d = core.same(ai, am, tol=1e-7)
+        if d:
+            return d
+        pi, pm, cell = wi["pos"], wm["pos"], wi["cell"]
+    else:
+        if wi["fmt"] != wm["fmt"]:
+            return "format %s vs %s" % (wi["fmt"], wm["fmt"])
+
+        def strip(j):
+            k = dict(j)
+            k["atoms"] = [{kk: vv for kk, vv in r.items() if kk != "pos"} for r in j["atoms"]]
+            return k
+        d = core.same(strip(wi["atoms"]), strip(wm["atoms"]), tol=1e-7)
+        if d:
+            return d
+        pi = [r["pos"] for r in wi["atoms"]["atoms"]]
+        pm = [r["pos"] for r in wm["atoms"]["atoms"]]
+        cell = wi["atoms"]["cell"]
+    if len(pi) != len(pm):
+        return "number of atoms %d vs %d" % (len(pi), len(pm))
+    amb = False
+    c = None if cell is None else np.array([[fl(v) for v in row] for row in cell])
+    cinv = None
+    if c is not None and abs(np.linalg.det(c)) > 1e-12:
+        cinv = np.linalg.inv(c)
+    for i, (x, y) in enumerate(zip(pi, pm)):
+        x = np.array([fl(v) for v in x])
+        y = np.array([fl(v) for v in y])
+        if np.abs(x - y).max() <= 1e-6:
+            continue
+        if cinv is not None:
+            f = (x - y).dot(cinv)
+            fx = x.dot(cinv)
+            on_face = np.minimum(np.abs(fx - np.round(fx)), 1.0).min() <= 1e-6
+            if np.abs((f - np.round(f)).dot(c)).max() <= 1e-6 and on_face:
+                amb = True
+                continue
+        return "/atoms[%d]/pos: %s vs %s" % (i, list(x), list(y))
+    return "ambiguous" if amb else None
+
+
+# ====================================================================== argument-vector tie (Model/CliArgs.lean)
+
+def click_parse(args):
+    """what click makes of an argument vector for the parameters declared on the real command (nothing is run)"""
+    import click
+    import mofun.cli.mofun_cli as M
+    try:
+        with core.quiet():
+            ctx = M.mofun_cli.make_context("mofun", list(args))
+    except click.exceptions.Exit:
+        return {"err": "help"}
+    except click.exceptions.NoSuchOption:
+        return {"err": "NoSuchOption"}
+    except click.exceptions.BadOptionUsage:
+        return {"err": "BadOptionUsage"}
+    except click.exceptions.MissingParameter:
+        return {"err": "MissingParameter"}
+    except click.exceptions.BadParameter:
+        return {"err": "BadParameter"}
+    except click.exceptions.UsageError:
+        return {"err": "UsageError"}
+    try:
+        p = ctx.params
+        sp = lambda v: None if v is None else str(v)
+        q = p.get("chargefile")
+        out = {"input": str(p["inputpath"]), "output": str(p["outputpath"]), "find": sp(p.get("find_path")),
+               "replace": sp(p.get("replace_path")), "fraction": core.q(p["replace_fraction"]), "atol": core.q(p["atol"]),
+               "ap1": p.get("axisp1_idx"), "ap2": p.get("axisp2_idx"), "op": p.get("opoint_idx"),
+               "dump": sp(p.get("dumppath")), "extract_uc": sp(p.get("extract_uc_path")),
+               "chargefile": None if q is None else str(q.name),
+               "replicate": None if p.get("replicate") is None else [int(v) for v in p["replicate"]],
+               "mic": None if p.get("mic") is None else core.q(p["mic"]),
+               "framework_element": p.get("framework_element"), "pp": bool(p.get("pp")),
+               "input_native": suffix(str(p["inputpath"])) in NATIVE_IN,
+               "output_native": suffix(str(p["outputpath"])) in NATIVE_OUT}
+    finally:
+        ctx.close()
+    return {"ok": out}
+
+
+def same_parse(impl, model):
+    if ("ok" in impl) != ("ok" in model):
+        return "outcome %s vs %s" % (impl.get("err", "ok"), model.get("err", "ok"))
+    if "err" in impl:
+        return None if impl["err"] == model["err"] else "error class %s vs %s" % (impl["err"], model["err"])
+    a, b = impl["ok"], model["ok"]
+    for k in a:
+        if k in ("fraction", "atol", "mic"):
+            if (a[k] is None) != (b[k] is None):
+                return "%s: %s vs %s" % (k, a[k], b[k])
+            if a[k] is not None and not core.close(a[k], b[k], 1e-14):
+                return "%s: %s vs %s" % (k, a[k], b[k])
+        elif a[k] != b.get(k):
+            return "%s: %r vs %r" % (k, a[k], b.get(k))
+    return None
+
+
+LONG = {"find": ["-f", "--find"], "replace": ["-r", "--replace"], "fraction": ["-p", "--replace-fraction"], "atol": ["--atol"],
+        "ap1": ["-ap1", "--axisp1-idx"], "ap2": ["-ap2", "--axisp2-idx"], "op": ["-op", "--opoint-idx"],
+        "dump": ["--dumppath"], "extract_uc": ["--extract-uc"], "chargefile": ["-q", "--chargefile"],
+        "mic": ["--mic"], "framework_element": ["--framework-element"]}
+
+
+def num_text(rng, qv, integer=False):
+    v = Fraction(qv)
+    if integer:
+        return rng.choice([str(int(v)), "%+d" % int(v) if v >= 0 else str(int(v)), "0%d" % int(v) if v >= 0 else str(int(v))])
+    x = float(v)
+    forms = [repr(x), "%.6f" % x, "%e" % x, "%g" % x]
+    if x == int(x):
+        forms += [str(int(x)), "%d." % int(x)]
+    if 0 < abs(x) < 1:
+        forms.append(repr(x).replace("0.", ".", 1))
+    return rng.choice(forms)
+
+
+def spell(rng, o, T):
+    """one of the many ways of typing the option record `o` (paths resolved in T): short / long names, attached values,
+    `=`, options before / between / after the two paths, in random order, some option given twice (the last one wins).
+    Returns the list of token groups; a group tagged "pos" is a positional path."""
+    units = []
+    for k, names in LONG.items():
+        if o[k] is None:
+            continue
+        val = sub(o[k], T) if k in ("find", "replace", "dump", "extract_uc", "chargefile") else (
+            num_text(rng, o[k], integer=True) if k in ("ap1", "ap2", "op") else (
+                o[k] if k == "framework_element" else num_text(rng, o[k])))
+        occ = [val]
+        if rng.random() < 0.25 and k != "chargefile":
+            other = {"find": "/nonexistent/x.cml", "replace": "/nonexistent/y.cml", "dump": "zz.dump", "extract_uc": "zz.cif",
+                     "framework_element": "Xx"}.get(k, "7" if k in ("ap1", "ap2", "op") else "0.375")
+            occ = [other, val]                              # an earlier occurrence that the last one overrides
+        unit = []
+        for v in occ:
+            name = rng.choice(names)
+            style = rng.random()
+            if len(name) == 2 and style < 0.35 and v != "":
+                unit.append(("opt", [name + v]))             # -fVALUE
+            elif len(name) > 2 and style < 0.35:
+                unit.append(("opt", [name + "=" + v]))       # --name=VALUE, -ap1=VALUE
+            else:
+                unit.append(("opt", [name, v]))
+        units.append(unit)
+    if o["replicate"]:
+        units.append([("opt", ["--replicate"] + [str(v) for v in o["replicate"]])])
+    if o["pp"]:
+        units.append([("opt", ["--pp"])] * (2 if rng.random() < 0.2 else 1))
+    rng.shuffle(units)
+    groups = [g for u in units for g in u]
+    cut = sorted(rng.randint(0, len(groups)) for _ in range(2))
+    return (groups[:cut[0]] + [("pos", [sub(o["input"], T)])] + groups[cut[0]:cut[1]] + [("pos", [sub(o["output"], T)])]
+            + groups[cut[1]:])
+
+
+def flat(groups):
+    return [t for _, g in groups for t in g]
+
+
+def broken(rng, groups):
+    """a command line with exactly one defect (or a special form), and the name of the defect"""
+    kind = rng.choice(["unknown-long", "unknown-short", "missing-value", "missing-3", "flag-value", "bad-float", "bad-int",
+                       "missing-arg", "extra-arg", "help", "double-dash", "neg-replicate", "bad-replicate"])
+    g = list(groups)
+    at = rng.randint(0, len(g))
+    if kind == "unknown-long":
+        g.insert(at, ("opt", [rng.choice(["--nope", "--fin", "--replicat", "--pp2", "--atol2=3"])]))
+    elif kind == "unknown-short":
+        g.insert(at, ("opt", [rng.choice(["-x", "-z3", "-a", "-o", "-ap3", "-P"])]))
+    elif kind == "missing-value":
+        g.append(("opt", [rng.choice(["--atol", "-f", "--mic", "-p", "-ap1", "--framework-element", "--dumppath"])]))
+    elif kind == "missing-3":
+        g.append(("opt", ["--replicate"] + ["2"] * rng.randint(0, 2)))
+    elif kind == "flag-value":
+        g.insert(at, ("opt", ["--pp=" + rng.choice(["1", "true", ""])]))
+    elif kind == "bad-float":
+        g.insert(at, ("opt", [rng.choice(["--atol", "--mic", "-p"]), rng.choice(["abc", "1,5", "0.1.2", "e5", "--", "1e", ""])]))
+    elif kind == "bad-int":
+        g.insert(at, ("opt", [rng.choice(["-ap1", "-ap2", "-op"]), rng.choice(["1.5", "x", "1e2", "", "0x1"])]))
+    elif kind == "missing-arg":
+        pos = [i for i, x in enumerate(g) if x[0] == "pos"]
+        for i in sorted(rng.sample(pos, min(len(pos), rng.randint(1, 2))), reverse=True):
+            del g[i]
+    elif kind == "extra-arg":
+        g.insert(at, ("pos", ["surplus.cif"]))
+    elif kind == "help":
+        g.insert(at, ("opt", ["--help"]))
+    elif kind == "double-dash":
+        opts = [x for x in g if x[0] == "opt"]
+        g = opts + [("opt", ["--"]), ("pos", ["-in.cif"]), ("pos", ["--out.lmpdat"])]
+    elif kind == "neg-replicate":
+        g.append(("opt", ["--replicate", "2", "-1", "1"]))
+    elif kind == "bad-replicate":
+        g.insert(at, ("opt", ["--replicate", "2", "1.5", "1"]))
+    return flat(g), kind
+
+
 # ====================================================================== one case
 
 def cell_info(o, T):
@@ -1041,7 +1388,7 @@ def run_case(world, o, seed):
             with open(sub(o["chargefile"], T)) as f:
                 chargevals = [float(l) for l in f if l.strip()]
         with core.quiet():
-            res, events = run_cli(o, T, seed)
+            res, events, inner = run_cli(o, T, seed)
         exc = res.exception
         calls, flow_ok = normalise(events, o, T, ortho, chargevals)
         fw = o["framework_element"] is not None
@@ -1141,7 +1488,34 @@ def run_case(world, o, seed):
                         failures.append(("find-only run reports other matches than the API",
                                          {"cli": sorted(tuple(sorted(t)) for t in got), "api": want}, "same set of matches", []))
                     info["matches"] = None if got is None else len(got)
-        return {"inp": inp, "impl": impl, "lean_op": lean_op, "failures": failures, "info": info, "calls": calls}
+        # ---- execution tie: the plan executed over the models (runPlan / apiPipeline) vs what the real run held when
+        #      it saved, with the environment observed on the real run
+        exec_tie = None
+        try:
+            eop, expected = exec_op(o, T, events, inner, chargevals)
+            if eop is None:
+                info["exec_skipped"] = expected
+            else:
+                if exc is not None:
+                    expected = {"err": exec_err_kind(exc)}
+                if expected is not None:
+                    exec_tie = (eop, expected)
+                else:
+                    info["exec_skipped"] = "nothing saved"
+        except Exception as e:  # noqa
+            info["exec_skipped"] = "harness: %r" % (e,)
+        # ---- argument-vector tie: what click makes of the very command line that was run, and of one other spelling
+        parse_ties = []
+        try:
+            rng = random.Random(seed)
+            for av in (argv(o, T), flat(spell(rng, o, T))):
+                got = click_parse(av)
+                parse_ties.append(({"op": "cli_parse", "argv": [unsub(a, T) for a in av]},
+                                   json.loads(unsub(json.dumps(got), T))))
+        except Exception as e:  # noqa
+            info["parse_skipped"] = "harness: %r" % (e,)
+        return {"inp": inp, "impl": impl, "lean_op": lean_op, "failures": failures, "info": info, "calls": calls,
+                "exec": exec_tie, "parse": parse_ties}
     finally:
         shutil.rmtree(T, ignore_errors=True)
 
@@ -1270,8 +1644,83 @@ def _nontrivial(o):
                 or o["dump"] or o["extract_uc"])
 
 
-def _evaluate(ctx, cases, with_model):
-    ops, impls, inps = [], [], []
+def _compare_exec(ctx, inp, eop, expected, model):
+    """model = {"run": …, "api": …}: both interpretations against the real run"""
+    ctx.compared += 1
+    if model.get("run") != model.get("api"):
+        # the theorems say they agree, or both fail; an accepted run where they differ contradicts run_accepted_eq_api
+        if "ok" in model.get("run", {}) or "ok" in model.get("api", {}):
+            ctx.disagree("cli_run", inp, model.get("run"), model.get("api"), "runPlan and apiPipeline differ in the driver")
+            return
+    for which in ("run", "api"):
+        d = compare_exec(expected, model[which])
+        if d == "ambiguous":
+            ctx.ambiguous += 1
+            return
+        if d:
+            ctx.disagree("cli_" + which, {"case": inp, "env": {k: v for k, v in eop.items() if k not in ("files", "ase")}},
+                         _brief(expected), _brief(model[which]), d)
+            return
+
+
+def _brief(r):
+    if "ok" in r and r["ok"]["written"]["kind"] == "native":
+        a = r["ok"]["written"]["atoms"]
+        return {"ok": {"natoms": len(a["atoms"]), "types": a["types"], "cell": a["cell"], "reported": r["ok"]["reported"]}}
+    return r
+
+
+def parse_stream(ctx, n):
+    """generated command lines (many spellings, single defects) through click and through the model"""
+    rng = ctx.rng
+    T = tempfile.mkdtemp(prefix="c20p_")
+    out = []
+    try:
+        with open(os.path.join(T, "q.txt"), "w") as f:
+            f.write("0.5\n")
+        for k in range(n):
+            o = blank_opts()
+            o["input"] = rng.choice(["$T/in.cif", "in.xyz", "a/b.c/d", "-", ".cif", "x.lmpdat.", "rel/in.cml"])
+            o["output"] = rng.choice(["$T/out.lmpdat", "o.mol", "o.cml", "out", "o.cif"])
+            if rng.random() < .6:
+                o["find"] = "$T/p.cml"
+            if rng.random() < .4:
+                o["replace"] = "$T/r.cml"
+            if rng.random() < .5:
+                o["fraction"] = core.q(rng.choice([0.5, 0.25, 1.0, 0.0, 0.1, -0.5, 3.0]))
+            if rng.random() < .5:
+                o["atol"] = core.q(rng.choice([0.1, 0.05, 0.2, 1e-3, 1e-10, 123456.789]))
+            for key in ("ap1", "ap2", "op"):
+                if rng.random() < .4:
+                    o[key] = rng.choice([0, 1, 2, -1, 10, -12])
+            if rng.random() < .3:
+                o["dump"] = "$T/d.dump"
+            if rng.random() < .3:
+                o["extract_uc"] = "$T/uc.lmpdat"
+            if rng.random() < .4:
+                o["chargefile"] = "$T/q.txt"
+            if rng.random() < .4:
+                o["replicate"] = rng.choice([[2, 1, 1], [1, 2, 2], [0, 1, 1], [10, 3, 1]])
+            if rng.random() < .4:
+                o["mic"] = core.q(rng.choice([12.5, 6.0, 3.75, -2.0]))
+            if rng.random() < .2:
+                o["framework_element"] = rng.choice(["C", "Zr", "-x", "", "--pp", "a=b"])
+            o["pp"] = rng.random() < .4
+            g = spell(rng, o, T)
+            av, kind = flat(g), "well-formed"
+            if k % 2:
+                av, kind = broken(rng, g)
+            got = click_parse(av)
+            ctx.count("argv:" + kind)
+            ctx.count("argv-outcome:" + got.get("err", "ok"))
+            out.append(({"op": "cli_parse", "argv": [unsub(a, T) for a in av]}, json.loads(unsub(json.dumps(got), T))))
+    finally:
+        shutil.rmtree(T, ignore_errors=True)
+    return out
+
+
+def _evaluate(ctx, cases, with_model, nparse=0):
+    batch = []          # (lean op, kind, input record, implementation result)
     for world, o, seed, stream in cases:
         r = run_case(world, o, seed)
         inp = r["inp"]
@@ -1298,32 +1747,52 @@ def _evaluate(ctx, cases, with_model):
             ctx.count("call:" + c["f"])
         for what, observed, required, tags in r["failures"]:
             ctx.fail(what, inp, observed=observed, required=required, tags=tags)
+        for pop, pimpl in r["parse"]:
+            batch.append((pop, "parse", pop, pimpl))
+        if r["exec"] is not None:
+            batch.append((r["exec"][0], "exec", inp, r["exec"][1]))
+            ctx.count("exec-tie:compared")
+        else:
+            ctx.count("exec-tie:skipped (%s)" % r["info"].get("exec_skipped", "?"))
         if r["info"]["ambiguous"]:
             ctx.ambiguous += 1
             continue
         if not r["info"]["flow_ok"]:
             ctx.disagree("cli_dataflow", inp, {"calls": r["calls"]}, None,
                          "a recorded call did not act on the structure / patterns produced by the previous calls")
-        ops.append(r["lean_op"])
-        impls.append(r["impl"])
-        inps.append(inp)
-    if not with_model or not ops:
+        batch.append((r["lean_op"], "plan", inp, r["impl"]))
+    if not with_model:
         return
-    models = ctx.lean.run(ops)
-    for op, inp, impl, model in zip(ops, inps, impls, models):
-        if impl.get("prefix"):
-            # known finding: the run stops at the framework-element step; compare what happened before it
-            mc = model.get("calls", [])
-            cut = next((i for i, c in enumerate(mc) if c["f"] == "setFrameworkElement"), len(mc))
-            ctx.compare("cli_plan_prefix", inp, {"calls": impl["calls"]}, {"calls": mc[:cut]} if "calls" in model else model)
+    for pop, pimpl in (parse_stream(ctx, nparse) if nparse else []):
+        batch.append((pop, "parse", pop, pimpl))
+    if not batch:
+        return
+    models = ctx.lean.run([b[0] for b in batch])
+    for (op, kind, inp, impl), model in zip(batch, models):
+        if kind == "plan":
+            if impl.get("prefix"):
+                # known finding: the run stops at the framework-element step; compare what happened before it
+                mc = model.get("calls", [])
+                cut = next((i for i, c in enumerate(mc) if c["f"] == "setFrameworkElement"), len(mc))
+                ctx.compare("cli_plan_prefix", inp, {"calls": impl["calls"]}, {"calls": mc[:cut]} if "calls" in model else model)
+            else:
+                ctx.compare("cli_plan", inp, impl, model)
+        elif kind == "exec":
+            _compare_exec(ctx, inp, op, impl, model)
         else:
-            ctx.compare("cli_plan", inp, impl, model)
+            ctx.compared += 1
+            if model.get("err") == "out-of-model":
+                ctx.ambiguous += 1          # negative --replicate factor: accepted by click, not an `Options` record
+                continue
+            d = same_parse(impl, model)
+            if d:
+                ctx.disagree("cli_parse", inp, impl, model, d)
 
 
 def run(ctx):
     ctx.rule = RULE
     cases = all_cases(ctx)
-    _evaluate(ctx, cases, with_model=True)
+    _evaluate(ctx, cases, with_model=True, nparse=ctx.n(200, 3000))
     # the pairwise array is complete by construction (checked here, not assumed)
     ctx.notes.append("pairwise covering array over %d factors (%s) verified complete for every generated world" %
                      (len(FACTORS), ", ".join("%s:%d" % (k, len(v)) for k, v in sorted(FACTORS.items()))))
